@@ -1,6 +1,6 @@
 PROP = dict(
     props="Props/C10.v",
-    tie={"modules": ["GoSem", "Abi", "VmReceive", "Emb", "Locks", "TieC09", "TieC10"],
+    tie={"modules": ["GoSem", "Abi", "VmReceive", "Emb", "LockEnv", "Pillar", "Locks", "TieC09", "TieC10"],
          "fns": {"vm_receive": ("vm_receive_run", "vm_receive_eqb", "(bytes * Z * bytes * bool * list (bytes * Z * bytes)) * (Z * list (bytes * Z * bytes))"),
                  "emb_plasma": ("emb_plasma_run", "emb_plasma_eqb", "emb_in pstore * emb_out pstore"),
                  "emb_stake": ("emb_stake_run", "emb_stake_eqb", "emb_in sstore * emb_out sstore"),
